@@ -149,9 +149,12 @@ def run_with_target(c, W, B, E, abs_t, putopts, putenv):
     rel = [a[len(B) + 1:] for a in args]
     if c['with'] == 'two-links-spelled':
         # both links live in B/real; the second is reached as K/../lnk2 with K -> B/real/tdir, while a third, different link sits at <cwd>/lnk2
+        # (the first argument's parent is the working directory itself, which is what 'K/..' collapses to lexically)
         W.link(B + '/K', B + '/real/tdir')
         W.link(B + '/lnk2', '/outside/keep')
-        rel = ['real/lnk', 'K/../lnk2']
+        W.link(B + '/lnk0', W.nodes[E][2])
+        args = [B + '/lnk0', E2]
+        rel = ['lnk0', 'K/../lnk2']
     with cell.Sandbox(W.spec()) as sb:
         orig = sb.snapshot()
         r = sb.run(['trash-put'] + putopts + rel, cwd=B, now='2024-03-03T03:03:03', env=putenv)
